@@ -37,8 +37,11 @@ type c12Scn struct {
 	// ArgvRuntime: the operands are not given in Config.Args but assigned to ARGV in BEGIN
 	ArgvRuntime bool `json:"argv_runtime,omitempty"`
 	// ViaContext: run through interp.New + ExecuteContext with a context that is never cancelled
-	ViaContext bool       `json:"via_context,omitempty"`
-	Stdin      core.Bytes `json:"stdin"`
+	ViaContext bool `json:"via_context,omitempty"`
+	// Warm: the Interpreter is reused: the same program first runs once with every flag off and
+	// another OpenFile function, in a world of its own; then the measured run
+	Warm  bool       `json:"warm,omitempty"`
+	Stdin core.Bytes `json:"stdin"`
 	// Faults: virtual name -> fault of the OpenFile seam (custom open only)
 	Faults map[string]string `json:"faults,omitempty"`
 }
@@ -147,6 +150,7 @@ func (c12Engine) Gen(r *core.Rand, tier string, i int) any {
 	}
 	sc.ArgvRuntime = len(sc.Args) > 0 && r.Chance(1, 3)
 	sc.ViaContext = r.Chance(1, 4)
+	sc.Warm = r.Chance(1, 5)
 	sc.Stdin = core.Bytes("s1\ns2\ns3\n")
 	if sc.CustomOpen && r.Chance(1, 6) {
 		sc.Faults = map[string]string{core.Pick(r, []string{"out1", "in1", "out2"}): core.Pick(r, []string{"enoent", "eacces", "devfull", "readonly", "emfile", "emfile"})}
@@ -438,13 +442,44 @@ func (e c12Engine) Run(scAny any, keep bool) (out core.Outcome) {
 	before := dirListing(fs.Dir)
 	cwdBefore := dirListing(cwd)
 	var res execResult
-	if sc.ViaContext {
+	warmPanic := ""
+	if sc.ViaContext || sc.Warm {
 		it, ierr := interp.New(prog)
 		if ierr != nil {
 			core.Fatal("C12: New: %v", ierr)
 		}
-		ctx := core.NewSimContext()
-		res = guarded(func() (int, error) { return it.ExecuteContext(ctx, cfg) })
+		if sc.Warm {
+			// an earlier, unrestricted run of the same program in a world of its own
+			wfs, werr := core.NewSimFS(scratchBase(), nil)
+			if werr != nil {
+				core.Fatal("C12: simfs: %v", werr)
+			}
+			_ = wfs.Put("in1", []byte("i1a\ni1b\n"))
+			_ = wfs.Put("in2", []byte("i2a\n"))
+			warm := *cfg
+			warm.NoExec, warm.NoFileWrites, warm.NoFileReads = false, false, false
+			warm.Stdin = core.NewSimReader("stdin", stdin, core.Delivery{}, nil, nil)
+			warm.Output, warm.Error = core.NewSimSink("warm", nil), core.NewSimSink("warmerr", nil)
+			if sc.CustomOpen {
+				warm.OpenFile = wfs.Open
+			}
+			wr := guarded(func() (int, error) { return it.Execute(&warm) })
+			wfs.Remove()
+			warmPanic = wr.Panic
+			it.ResetVars()
+			// only the measured run is judged
+			st.marks, st.seen = nil, nil
+			st.dones, st.vals = map[int]float64{}, map[int]string{}
+			_ = os.Remove(startLog)
+			before = dirListing(fs.Dir)
+			cwdBefore = dirListing(cwd)
+		}
+		if sc.ViaContext {
+			ctx := core.NewSimContext()
+			res = guarded(func() (int, error) { return it.ExecuteContext(ctx, cfg) })
+		} else {
+			res = guarded(func() (int, error) { return it.Execute(cfg) })
+		}
 	} else {
 		res = execProgram(prog, cfg)
 	}
@@ -472,6 +507,9 @@ func (e c12Engine) Run(scAny any, keep bool) (out core.Outcome) {
 			out.Log = log.Lines
 		}
 	}()
+	if warmPanic != "" {
+		return fail("panic", "warm-up run: "+warmPanic)
+	}
 	if res.Panic != "" {
 		return fail("panic", res.Panic)
 	}
@@ -763,6 +801,9 @@ func (c12Engine) Shrink(scAny any) []any {
 	}
 	if sc.ViaContext {
 		add(func(c *c12Scn) { c.ViaContext = false })
+	}
+	if sc.Warm {
+		add(func(c *c12Scn) { c.Warm = false })
 	}
 	if sc.ArgvRuntime {
 		add(func(c *c12Scn) { c.ArgvRuntime = false })
